@@ -45,6 +45,7 @@ type Task struct {
 	// Blocked records the last site after which the task was found blocked.
 	lastSite string
 	fresh    bool // auto-registered and not yet parked once
+	since    int  // scheduler step at which the task became runnable (parked and eligible)
 }
 
 // EndReason says why a run ended.
@@ -115,12 +116,22 @@ type Sim struct {
 	endSites []string
 	invMsg   string
 	stopReq  atomic.Bool
+	rootGID  int64 // the goroutine that created the simulator and runs the scheduler: hooks are no-ops on it
 	// DelayedRunnable counts steps at which the scheduler let the clock
 	// advance although tasks were runnable ("slow node" fault).
 	DelayedRunnable int
 	// SlowNodePermille: probability (per mille, per step) of the slow-node
 	// fault; 0 disables.
 	SlowNodePermille int
+	// FairBound, when > 0, makes the scheduler fair: a task that has been
+	// runnable for FairBound steps is released next (oldest first). Oracles
+	// that state progress "within N steps" are only sound in such runs.
+	FairBound int
+	// ForcedFair counts the steps at which fairness overrode the tape.
+	ForcedFair int
+	// MaxWait is the largest number of steps any task spent runnable before it
+	// was released (measured; progress oracles derive their step bounds from it).
+	MaxWait int
 }
 
 var cur atomic.Pointer[Sim]
@@ -152,6 +163,7 @@ func New(tape *Tape) *Sim {
 		start:    time.Now(),
 		lastRun:  -1,
 		logHash:  14695981039346656037,
+		rootGID:  goid(),
 	}
 	cur.Store(s)
 	return s
@@ -245,6 +257,11 @@ func (s *Sim) lookupLocked(site string) *Task {
 
 // park hands the token back and waits for release.
 func (s *Sim) park(site string, kind int, probe func() bool) {
+	if goid() == s.rootGID {
+		// scenario set-up or oracle code running on the scheduler's own
+		// goroutine: nothing else runs concurrently, no scheduling point
+		return
+	}
 	s.mu.Lock()
 	if s.ended {
 		s.mu.Unlock()
@@ -265,6 +282,7 @@ func (s *Sim) park(site string, kind int, probe func() bool) {
 	t.site = site
 	t.kind = kind
 	t.probe = probe
+	t.since = -1
 	s.parked = append(s.parked, t)
 	s.mu.Unlock()
 	select {
@@ -307,6 +325,9 @@ func BeforeLock(try func() bool, unlock func(), site string) {
 func AfterBlock(site string) {
 	s := cur.Load()
 	if s == nil {
+		return
+	}
+	if goid() == s.rootGID {
 		return
 	}
 	s.mu.Lock()
@@ -409,7 +430,12 @@ func (s *Sim) Run() EndReason {
 		var elig []*Task
 		for _, t := range parked {
 			if t.probe == nil || t.probe() {
+				if t.since < 0 {
+					t.since = s.steps
+				}
 				elig = append(elig, t)
+			} else {
+				t.since = -1
 			}
 		}
 		if s.steps >= s.MaxSteps {
@@ -464,6 +490,9 @@ func (s *Sim) Run() EndReason {
 		}
 		t.state = stRunning
 		s.current = t
+		if t.since >= 0 && s.steps-t.since > s.MaxWait {
+			s.MaxWait = s.steps - t.since
+		}
 		s.steps++
 		if t.ID != s.lastRun {
 			s.switches++
@@ -477,6 +506,18 @@ func (s *Sim) Run() EndReason {
 
 func (s *Sim) pick(elig []*Task) int {
 	n := len(elig)
+	if s.FairBound > 0 && n > 1 {
+		oldest := -1
+		for i, t := range elig {
+			if s.steps-t.since >= s.FairBound && (oldest < 0 || t.since < elig[oldest].since) {
+				oldest = i
+			}
+		}
+		if oldest >= 0 {
+			s.ForcedFair++
+			return oldest
+		}
+	}
 	if n == 1 {
 		// no tape entry is consumed for forced moves: keeps tapes short and
 		// lets the all-zero tape mean "lowest id first".
